@@ -279,55 +279,82 @@ def op_upscaling(o):
     return 1
 
 
-def model_generator(ops):
-    """the same stream composed from the extracted model: gen_ofm_boxes, transform, interleave (one level per op)"""
-    per_op = []
-    for o in ops:
-        if o["woff"]:
-            start = list(o["woff"])
-            end = [a + b for a, b in zip(o["woff"], o["wshape"])]
-        else:
-            start = [0, 0, 0, o["slices"][0]]
-            end = list(o["ofm"])
-        r = models.run("ofm_boxes", [start + end + [o["stripe"][1], o["stripe"][2]] + list(o["slices"])], exe_name=EXE)[0]
+def model_generator_batch(specs):
+    """the same streams composed from the extracted model: gen_ofm_boxes, transform, interleave (one level per op);
+    batched over all schedules (three model processes per cascade level instead of several per schedule)"""
+    bcases, bidx = [], []
+    for si, ops in enumerate(specs):
+        for oi, o in enumerate(ops):
+            if o["woff"]:
+                start = list(o["woff"])
+                end = [a + b for a, b in zip(o["woff"], o["wshape"])]
+            else:
+                start = [0, 0, 0, o["slices"][0]]
+                end = list(o["ofm"])
+            bcases.append(start + end + [o["stripe"][1], o["stripe"][2]] + list(o["slices"]))
+            bidx.append((si, oi))
+    bouts = models.run("ofm_boxes", bcases, exe_name=EXE) if bcases else []
+    failed = set()
+    boxes_of = {}
+    tcases, tidx = [], []
+    for (si, oi), r in zip(bidx, bouts):
         if r[0] != 1:
-            return ("assert",)
+            failed.add(si)
+            continue
+        o = specs[si][oi]
         boxes = [r[2 + 8 * i: 10 + 8 * i] for i in range(r[1])]
+        boxes_of[(si, oi)] = boxes
         kdh = o["dil_h"] * (o["k_h"] - 1) + 1
-        tcases = []
         for b in boxes:
             tcases.append(b + [1 if o["skirt"] is not None else 0, o["sy"], o["sx"]] + list(o["skirt"] or [0, 0, 0, 0]) + list(o["ifm"]) +
                           [o["bt"]] + list(o["woff"] or [0, 0, 0, 0]) + [kdh] +
                           ([1] + list(o["roff"]) + list(o["rshape"]) if o["roff"] else [0] * 9) + [op_upscaling(o), 0])
-        touts = models.run("transform", tcases, exe_name=EXE) if tcases else []
-        cmds = []
-        for b, t in zip(boxes, touts):
-            if t[0] != 1:
-                return ("assert",)
-            cmds.append((b, t[1:9], t[9], t[10]))
-        per_op.append(cmds)
-    # level by level: the stream of op i-1 (with everything it pulled) is the producer stream of op i
-    stream = [(0, c) for c in per_op[0]]
-    for i in range(1, len(ops)):
-        case = [len(per_op[i])]
-        for (b, ib, pt, pb) in per_op[i]:
-            case += b + ib + [pt, pb]
-        case.append(len(stream))
-        for (oi, c) in stream:
-            case += [1 if oi == i - 1 else 0] + c[0]
-        ev = models.run("interleave", [case], exe_name=EXE)[0]
-        new = []
-        pi, ci, k = 0, 0, 0
-        while k < len(ev):
-            if ev[k] == 0:
-                new.append(stream[pi])
-                pi += 1
-            else:
-                new.append((i, per_op[i][ci]))
-                ci += 1
-            k += 9
-        stream = new
-    return [(oi, c[0][0:4], c[0][4:8], c[1][0:4], c[1][4:8], c[2], c[3]) for (oi, c) in stream]
+            tidx.append((si, oi))
+    touts = models.run_parallel("transform", tcases, exe_name=EXE) if tcases else []
+    per_op = collections.defaultdict(list)
+    pos = collections.Counter()
+    for (si, oi), t in zip(tidx, touts):
+        b = boxes_of[(si, oi)][pos[(si, oi)]]
+        pos[(si, oi)] += 1
+        if t[0] != 1:
+            failed.add(si)
+            continue
+        per_op[(si, oi)].append((b, t[1:9], t[9], t[10]))
+    streams = {si: [(0, c) for c in per_op[(si, 0)]] for si in range(len(specs)) if si not in failed}
+    level = 1
+    while True:
+        todo = [si for si in streams if len(specs[si]) > level]
+        if not todo:
+            break
+        icases = []
+        for si in todo:
+            cmds = per_op[(si, level)]
+            case = [len(cmds)]
+            for (b, ib, pt, pb) in cmds:
+                case += b + ib + [pt, pb]
+            case.append(len(streams[si]))
+            for (oi, c) in streams[si]:
+                case += [1 if oi == level - 1 else 0] + c[0]
+            icases.append(case)
+        for si, ev in zip(todo, models.run("interleave", icases, exe_name=EXE)):
+            new, pi, ci, k = [], 0, 0, 0
+            while k < len(ev):
+                if ev[k] == 0:
+                    new.append(streams[si][pi])
+                    pi += 1
+                else:
+                    new.append((level, per_op[(si, level)][ci]))
+                    ci += 1
+                k += 9
+            streams[si] = new
+        level += 1
+    out = []
+    for si in range(len(specs)):
+        if si in failed:
+            out.append(("assert",))
+        else:
+            out.append([(oi, c[0][0:4], c[0][4:8], c[1][0:4], c[1][4:8], c[2], c[3]) for (oi, c) in streams[si]])
+    return out
 
 
 # ======================================================================================== case generators
@@ -404,6 +431,15 @@ def run(tier):
             return [None] * len(cases)
         return models.run_parallel(name, cases, exe_name=EXE) if len(cases) > 4000 else models.run(name, cases, exe_name=EXE)
 
+    import time
+    tsec = collections.OrderedDict()
+    t_last = [time.time()]
+
+    def lap(name):
+        tsec[name] = round(time.time() - t_last[0], 1)
+        t_last[0] = time.time()
+
+    lap('build')
     # ---------------------------------------------------------------- 1. padding helpers
     cases = []
     for i, s, f in itertools.product(range(1, 14), (1, 2, 3), range(1, 9)):
@@ -456,6 +492,7 @@ def run(tier):
         if m is not None and m != r:
             note_diff("rolling_buffer_shape", c, m, r)
 
+    lap('helpers')
     # ---------------------------------------------------------------- 3. transform + create_padding + oracle, height axis
     Wd, Dd = 6, 8
     geos = geometry_cases(rng, tier)
@@ -516,6 +553,7 @@ def run(tier):
             samples.append({"H": H, "k": k, "d": d, "s": s, "pad": pad, "stripe_rows": [st, en], "ifm_box_rows": [tr[2], tr[6]],
                             "pad_top": pr[0], "pad_bottom": pr[2]})
 
+    lap('height')
     # ---------------------------------------------------------------- 4. width axis, read offsets, depth, upscaling, wrap
     tcases, tmeta = [], []
     small = [g for g in geos if g[0] <= (8 if tier == "quick" else 12)]
@@ -646,6 +684,7 @@ def run(tier):
         if m is not None and m != r:
             note_diff("create_padding", c, m, r)
 
+    lap('width_random')
     # ---------------------------------------------------------------- 5. nearest-neighbour upscaling (oracle on the implementation)
     for H in range(1, (7 if tier == "quick" else 11)):
         # geometries of convert_resize_to_upscale_and_average_pool / convert_resizenn_ac_to_depthwise_conv: 1x1 SAME, kxk VALID
@@ -674,6 +713,7 @@ def run(tier):
                                      hw_pad_top=pr[0], hw_pad_bottom=pr[2], ofm_row=mm[0], tap=mm[1], hardware_reads=mm[2], operator_reads=mm[3]),
                                 "2x nearest upscaling, even stripe [%d,%d) of H=%d k=%d %s: hardware reads %s, operator reads %s" % (st, en, H, k, pad, mm[2], mm[3]))
 
+    lap('nearest')
     # ---------------------------------------------------------------- 6. tensor strides and rolling-buffer tile addresses
     scases, sreal, acases, areal = [], [], [], []
     for _ in range(600 if tier == "quick" else 8000):
@@ -717,6 +757,7 @@ def run(tier):
                         finding({"kind": "rolling_tile_address", "axis": "h"}, {"case": c, "row": y, "got": got, "want": want, "result": r},
                                 "two-tile address of row %d differs from base + (y mod buffer_height) * stride_y" % y)
                         break
+    lap('addresses')
     # ---------------------------------------------------------------- 7. the real generator: loops, partition, interleaving, rolling buffer
     gen_specs = []
 
@@ -777,11 +818,11 @@ def run(tier):
     gen_diffs = 0
     overruns = 0
     tail_gaps = 0
-    for spec in gen_specs:
-        real = run_real_generator(spec)
+    gen_model = model_generator_batch(gen_specs) if okx else [None] * len(gen_specs)
+    gen_real = [run_real_generator(spec) for spec in gen_specs]
+    for spec, real, mod in zip(gen_specs, gen_real, gen_model):
         ncorr["generate_high_level_commands_for_sched_op"] += 1
         if okx:
-            mod = model_generator(spec)
             if mod != real and "generator" not in diffs:
                 gen_diffs += 1
                 note_diff("generator", {"ops": [{k_: v_ for k_, v_ in o.items() if k_ not in ("padding",)} for o in spec]},
@@ -853,13 +894,14 @@ def run(tier):
             ccases.append([cons["ifm"][1], cons["ofm"][1], cons["k"], cons["d"], cons["s"], cons["padding"][0], cons["padding"][2],
                            cons["skirt"][0], cons["skirt"][2], cons["stripe"][1], prod["stripe"][1]])
             cmeta.append(spec)
+    real_of = {id(sp): rl for sp, rl in zip(gen_specs, gen_real)}
     for c, m, spec in zip(ccases, mrun("cascade", ccases), cmeta):
         if m is None:
             continue
         cons, prod = spec[1], spec[0]
         hin = min(real_ifm_area([cons["stripe"][1], 1, cons["sy"], 1, cons["k_h"], 1, cons["dil_h"], 1, 0])[1][1], cons["ifm"][1])
         hb = real_rb_shape([prod["stripe"][1], 1, 1, hin, 1])[1]
-        real = run_real_generator(spec)
+        real = real_of[id(spec)]
         ncorr["cascade state machine"] += 1
         ok_real = True
         mem = {}
@@ -872,6 +914,7 @@ def run(tier):
         if m[:3] != [hin, hb, 1 if ok_real else 0] or m[3] != len(real):
             note_diff("cascade_events/run_events", c, m, [hin, hb, 1 if ok_real else 0, len(real)])
 
+    lap('generator')
     # ---------------------------------------------------------------- 8. D2: stripe groups of every captured stream
     import compiles
     d2 = compiles.run_all(compiles.corpus_jobs() + compiles.plan(FAMS, 64 if tier == "quick" else 1600, vlib.seed(), tag="d2", capture=True))
@@ -994,7 +1037,9 @@ def run(tier):
                     for y in range(ob["start"][1], ob["end"][1]):
                         m_[y % hb] = y
 
+    lap('d2')
     res.cov.update({
+        "section_seconds": dict(tsec),
         "evaluations": evals, "distinct_nontrivial": len(nontrivial),
         "rule": "oracle evaluations on results of the real functions: one per (operator geometry, stripe) for tap equality (all rows x taps "
                 "brute force), per operator for the OFM partition, per cascade pair for the rolling buffer, per captured stripe / pass for D2; "
